@@ -593,7 +593,7 @@ func (r *Recorder) ReportSeq(t TB, kind string, c any, oracle func() *Violation)
 		// the first cases of every kind are also evaluated as the first library use of a fresh process
 		r.Eval()
 		r.Class("cold_start:" + kind)
-		if v := ColdEval(kind, c); v != nil {
+		if v := ColdEval(kind, c); v != nil && !IsKnown(r.Prop, strings.TrimPrefix(v.Key, "cold-start/")) {
 			r.Report(t, "cold", v)
 			return
 		}
